@@ -5,6 +5,7 @@
 //! A case line is `<KIND> <hex> <hex> ...`; for every case a header line `# <KIND>` and then the
 //! result lines (hex numbers) are written.
 
+mod asm;
 mod util;
 mod vm;
 
@@ -33,6 +34,7 @@ fn main() {
         let lines: Vec<Vec<u64>> = match kind {
             "C02" => vm::run_c02(&nums),
             "C03" => vm::run_c03(&nums),
+            "ASM" => asm::run_asm(&nums),
             other => panic!("unknown case kind {other}"),
         };
         writeln!(output, "# {kind}").unwrap();
